@@ -14,14 +14,15 @@ import (
 
 // Env is the evaluation environment of a contract expression.
 type Env struct {
-	c     *Ctx
-	fr    *Frame
-	fn    *ssa.Function // function whose scope resolves names (callee at call sites)
-	st    *State
-	old   *State
-	vars  map[string]*Val // explicit bindings: parameters (entry values), results, bound variables
-	cells bool            // resolve names to the current value of local variables first
-	fd    string
+	c        *Ctx
+	fr       *Frame
+	fn       *ssa.Function // function whose scope resolves names (callee at call sites)
+	st       *State
+	old      *State
+	vars     map[string]*Val // explicit bindings: parameters (entry values), results, bound variables
+	cells    bool            // resolve names to the current value of local variables first
+	fd       string
+	loopHead *ssa.BasicBlock
 }
 
 func (e *Env) with(name string, v *Val) *Env {
@@ -45,7 +46,7 @@ func (c *Ctx) evalClause(fr *Frame, st *State, cl *Clause, extra map[string]*Val
 }
 
 func (c *Ctx) evalExpr(fr *Frame, st *State, cl *Clause, extra map[string]*Val) *Val {
-	env := &Env{c: c, fr: fr, fn: fr.fn, st: st, old: fr.old, vars: map[string]*Val{}, cells: true, fd: fr.fd}
+	env := &Env{c: c, fr: fr, fn: fr.fn, st: st, old: fr.old, vars: map[string]*Val{}, cells: true, fd: fr.fd, loopHead: c.curLoopHead}
 	for i, p := range fr.fn.Params {
 		if i < len(fr.params) {
 			env.vars["old:"+p.Name()] = fr.params[i]
@@ -96,11 +97,34 @@ func (e *Env) lookupCell(name string) *ssa.Alloc {
 		return nil
 	}
 	var found *ssa.Alloc
+	var cands []*ssa.Alloc
 	for _, b := range e.fn.Blocks {
 		for _, in := range b.Instrs {
 			if al, ok := in.(*ssa.Alloc); ok && al.Comment == name {
 				if found == nil {
 					found = al
+				}
+				cands = append(cands, al)
+			}
+		}
+	}
+	if len(cands) > 1 && e.loopHead != nil {
+		// several variables of that name: prefer the one written in the loop head (range index),
+		// else one written anywhere inside the loop
+		for _, al := range cands {
+			for _, in := range e.loopHead.Instrs {
+				if st, ok := in.(*ssa.Store); ok && st.Addr == al {
+					return al
+				}
+			}
+		}
+		loop := naturalLoop(e.loopHead, e.fr.backEdge)
+		for _, al := range cands {
+			for b := range loop {
+				for _, in := range b.Instrs {
+					if st, ok := in.(*ssa.Store); ok && st.Addr == al {
+						return al
+					}
 				}
 			}
 		}
